@@ -486,7 +486,7 @@ def plan(tier, seed):
         {'id': 'b32-trp-noh', 'input': {'chains': 'W', 'noh': True, 'drop': d(2, 'keepcb')}, 'opts': ['-ff', 'martini30b32'], 'moves': []},
         {'id': 'm3-sidechains-gone', 'input': {'chains': 'S', 'drop': d(3, 'sidechain')}, 'opts': ['-ff', 'martini3001'], 'moves': [motion()]},
         {'id': 'm3-sidechains-gone-write', 'input': {'chains': 'H', 'drop': d(2, 'sidechain')}, 'opts': ['-ff', 'martini3001'] + WRITE3, 'moves': []},
-        {'id': 'm3-mutate', 'input': {'chains': 'H'}, 'opts': ['-ff', 'martini3001', '-mutate', 'A-LYS2:ALA', '-mutate', 'A-ALA7:TRP'], 'moves': []},
+        {'id': 'm3-mutate', 'input': {'chains': 'H'}, 'opts': ['-ff', 'martini3001', '-mutate', 'A-GLY29:SER', '-mutate', 'A-ALA7:TRP'], 'moves': []},
         {'id': 'm3-chains', 'input': {'chains': 'PSP'}, 'opts': ['-ff', 'martini3001'], 'moves': []},
         {'id': 'm3-go', 'input': {'chains': 'W'}, 'opts': ['-ff', 'martini3001', '-go', '-ss', 'C' * 20], 'moves': []},
         {'id': 'm3-water-bias', 'input': {'chains': 'W'}, 'opts': ['-ff', 'martini3001', '-ss', 'CHHHHHHHCCCCCCCCCCCC', '-water-bias',
